@@ -862,7 +862,43 @@ fn documents(thorough: bool) -> Vec<Value> {
   for d in rest {
     push(d, &mut out);
   }
+  let (sparse, dense) = sparse_documents();
+  for d in sparse.into_iter().chain(dense) {
+    push(d, &mut out);
+  }
   out
+}
+
+/// Documents whose LAST nested object omits a nullable property that an earlier object of the same
+/// array has (absent, null or empty array), for every property of every nesting level and both
+/// values of its alphabet; and "dense" partner documents whose objects carry one and the same value
+/// at every position of every level. In the per-field nested columns a document only occupies
+/// slots up to its last object that has a value, so a trailing sparse object has no slot of its
+/// own: the partner placed next to it in the same segment supplies the neighbouring slots.
+fn sparse_documents() -> (Vec<Value>, Vec<Value>) {
+  let vals = [("Alice", 1, "x", 1, "p"), ("bob", 2, "y", 2, "q")];
+  let mut sparse = Vec::new();
+  for (a, s, t, n, k) in vals {
+    // comment level: trailing comment lacks score / author / both
+    sparse.push(json!({"comment": [{"author": a, "score": s}, {"author": a}]}));
+    sparse.push(json!({"comment": [{"author": a, "score": s}, {"score": s}]}));
+    // reply level: trailing reply lacks n / tag
+    sparse.push(json!({"comment": [{"author": a, "score": s, "reply": [{"tag": t, "n": n}, {"tag": t}]}]}));
+    sparse.push(json!({"comment": [{"author": a, "score": s, "reply": [{"tag": t, "n": n}, {"n": n}]}]}));
+    // deep level: trailing deep object lacks k
+    sparse.push(json!({"comment": [{"author": a, "score": s, "reply": [{"tag": t, "n": n, "deep": {"k": k}}, {"tag": t, "n": n, "deep": {}}]}]}));
+  }
+  // null / empty-array instead of an absent property; sparse object in the second comment's replies
+  sparse.push(json!({"comment": [{"author": "bob", "score": 2}, {"author": "bob", "score": null}]}));
+  sparse.push(json!({"comment": [{"author": "Alice", "score": 1}, {"author": [], "score": 1}]}));
+  sparse.push(json!({"comment": [{"author": "bob", "score": 2, "reply": [{"tag": "y", "n": 2}]}, {"author": "bob", "score": 2, "reply": [{"tag": null, "n": []}]}]}));
+  let mut dense = Vec::new();
+  for (a, s, t, n, k) in vals {
+    let r = json!({"tag": t, "n": n, "deep": {"k": k}});
+    let c = json!({"author": a, "score": s, "reply": [r.clone(), r]});
+    dense.push(json!({"comment": [c.clone(), c]}));
+  }
+  (sparse, dense)
 }
 
 fn with_id(d: &Value, i: usize) -> Value {
@@ -927,7 +963,9 @@ fn check_case(reader: &searchlite_core::api::IndexReader, world: &World, roots: 
       if exp { "passes" } else { "is rejected" }
     ));
   }
-  let what = format!("layout {:?}: {}", world.layout, parts.join("; "));
+  let others: Vec<String> = world.docs.iter().enumerate().filter(|(i, _)| !wrong.contains(i)).map(|(_, d)| d.to_string()).collect();
+  let ctx = if others.is_empty() { String::new() } else { format!(" [other documents of the world, in commit order with the above: {}]", others.join(", ")) };
+  let what = format!("layout {:?}: {}{}", world.layout, parts.join("; "), ctx);
   (expected, Some(Failure { sig: if all_explained { Some(SIG_H7) } else { None }, what }))
 }
 
@@ -999,6 +1037,22 @@ pub fn run(ctx: &Ctx) -> i32 {
   let quick_docs = documents(false);
   for d in &quick_docs {
     worlds.push(mk_world(&[d], &[1]));
+  }
+  // every sparse-trailing-object document next to every dense document in ONE segment, both orders
+  // (and next to another sparse document of the other value)
+  let (sparse, dense) = sparse_documents();
+  let mut sparse_worlds = 0usize;
+  for d in &sparse {
+    for f in &dense {
+      worlds.push(mk_world(&[d, f], &[2]));
+      worlds.push(mk_world(&[f, d], &[2]));
+      sparse_worlds += 2;
+    }
+  }
+  for (i, d) in sparse.iter().enumerate() {
+    let e = &sparse[(i + 5) % sparse.len()];
+    worlds.push(mk_world(&[d, e], &[2]));
+    sparse_worlds += 1;
   }
   let mut bulk_pairs = 0usize;
   if !quick {
@@ -1215,7 +1269,8 @@ pub fn run(ctx: &Ctx) -> i32 {
     "documents" => docs.len(),
     "worlds" => worlds.len(),
     "worlds_done" => worlds_done.load(Ordering::Relaxed),
-    "world_rule" => format!("single-document worlds for the {} quick documents; {} worlds packing the remaining documents two per world (layouts [2] / [1,1] alternating); all ordered pairs of {} pool documents x layouts [2],[1,1]", quick_docs.len(), bulk_pairs, pair_pool.len()),
+    "sparse_trailing_object_worlds" => sparse_worlds,
+    "world_rule" => format!("single-document worlds for the {} quick documents; every document whose last comment / reply / deep object omits a nullable property (absent, null, []) in one segment with every dense document (same value at every object position), both orders; {} worlds packing the remaining documents two per world (layouts [2] / [1,1] alternating); all ordered pairs of {} pool documents x layouts [2],[1,1]", quick_docs.len(), bulk_pairs, pair_pool.len()),
     "document_evaluations" => doc_evals.load(Ordering::Relaxed),
     "documents_passing" => pass_cnt.load(Ordering::Relaxed),
     "documents_rejected" => reject_cnt.load(Ordering::Relaxed),
